@@ -1,5 +1,7 @@
 import RosuModel.Lemmas.SuspicionRat
 import RosuModel.Lemmas.StackingFull
+import RosuModel.Gen.LimitedQueueCaps
+import RosuModel.Props.C05
 import Mathlib.Data.Rat.Floor
 import Mathlib.Tactic.FieldSimp
 
@@ -351,6 +353,36 @@ open Rosu.Stack in
 theorem osu_old_stacking_never_panics {T P : Type} (A : Stack.Arith T P) (thr : T) (objs : List (SObj T P)) :
     ∃ h, oldStacking A thr objs = some h ∧ h.length = objs.length :=
   oldStacking_ok A thr objs
+
+/-! ## the capacities `LimitedQueue` is instantiated with in the crate (translated from the source) -/
+
+/-- Every instantiation of `LimitedQueue<T, N>` in /repo's current source (list regenerated by
+`tools/translate.d/limited_queue.py` on every check) has an understood capacity `N ≥ 1`, and no
+occurrence has a shape the extractor does not understand. -/
+theorem crate_queue_capacities_ok :
+    (Rosu.Gen.LimitedQueueCaps.uses.all fun u => match u.2.2.2 with | some n => decide (0 < n) | none => false) = true ∧
+    Rosu.Gen.LimitedQueueCaps.unknown = [] := by decide
+
+/-- …hence `queue_never_panics` applies to every queue the crate creates: for every push sequence
+all indexing / slicing operations stay in bounds. -/
+theorem crate_queues_never_panic (u : String × String × String × Option Nat) (hu : u ∈ Rosu.Gen.LimitedQueueCaps.uses)
+    (pushes : List Nat) :
+    ∃ n q0 q, u.2.2.2 = some n ∧ Rosu.Safety.LQ.new n = some q0 ∧ q0.pushAll pushes = some q ∧
+      q.len = min pushes.length n ∧ (∀ i, (q.index i).isSome = true) ∧ (q.last).isSome = true ∧
+      (∃ a b, q.asSlices = some (a, b) ∧ a.length + b.length = q.len) := by
+  have hall := crate_queue_capacities_ok.1
+  rw [List.all_eq_true] at hall
+  have := hall u hu
+  cases hc : u.2.2.2 with
+  | none => rw [hc] at this; cases this
+  | some n =>
+    rw [hc] at this
+    have hn : 0 < n := by simpa using this
+    obtain ⟨q0, q, h0, h1, h2, h3, h4, h5, _⟩ := queue_never_panics n hn pushes
+    exact ⟨n, q0, q, rfl, h0, h1, h2, h3, h4, h5⟩
+
+/-- non-vacuity: the list is not empty (the mania converter's `prev_note_times`) -/
+example : Rosu.Gen.LimitedQueueCaps.uses ≠ [] := by decide
 
 namespace StackExamples
 open Rosu.Stack
